@@ -173,14 +173,14 @@ Dis == [c |-> cdis, w |-> wdis]
 RECURSIVE SetToSeq(_)
 SetToSeq(S) == IF S = {} THEN <<>> ELSE LET x == CHOOSE x \in S : TRUE IN <<x>> \o SetToSeq(S \ {x})
 
-DelToks(d) ==
+DelToks(wd, d) ==
   IF d.delall THEN <<KTok(XDelAll)>>
-  ELSE LET ws == SetToSeq(d.delw) IN [i \in DOMAIN ws |-> KTok(XDelZ(wdt[ws[i]].z))]
+  ELSE LET ws == SetToSeq(d.delw) IN [i \in DOMAIN ws |-> KTok(XDelZ(wd[ws[i]].z))]
 
 \* tokens urwid writes for one screen row that it (re)draws: only what concerns graphics
-SegToks(p, y) ==
+SegToks(wd, p, y) ==
   IF p.kind # "img" THEN <<>>
-  ELSE LET g == WD[p.w]
+  ELSE LET g == wd[p.w]
            line == p.tt + (y - p.row)
        IN IF g.style = "block" \/ HTrimmed(p) \/ line \notin ImageLines(g, p) THEN <<>>
           ELSE LET strip == line - PadT(g, p)
@@ -193,14 +193,14 @@ SegToks(p, y) ==
 RECURSIVE Concat(_, _)
 Concat(ss, i) == IF i > Len(ss) THEN <<>> ELSE ss[i] \o Concat(ss, i + 1)
 
-RowToks(p, r) == LET ps == RowPsOf[p][r] IN Concat([i \in DOMAIN ps |-> SegToks(ps[i], r - 1)], 1)
+RowToks(wd, p, r) == LET ps == RowPsOf[p][r] IN Concat([i \in DOMAIN ps |-> SegToks(wd, ps[i], r - 1)], 1)
 
-SigOf(p, dis) ==
-  [r \in 1..ScrH |-> LET ps == RowPsOf[p][r] IN [i \in DOMAIN ps |-> SegSig(Ident, WD, dis, ps[i], r - 1)]]
+SigOf(wd, p, dis) ==
+  [r \in 1..ScrH |-> LET ps == RowPsOf[p][r] IN [i \in DOMAIN ps |-> SegSig(Ident, wd, dis, ps[i], r - 1)]]
 
 \* rows urwid draws: all without a cache, otherwise those whose segment list changed
-DrawToks(p, sig, cache) ==
-  Concat([r \in 1..ScrH |-> IF cache = <<>> \/ cache[r] # sig[r] THEN RowToks(p, r) ELSE <<>>], 1)
+DrawToks(wd, p, sig, cache) ==
+  Concat([r \in 1..ScrH |-> IF cache = <<>> \/ cache[r] # sig[r] THEN RowToks(wd, p, r) ELSE <<>>], 1)
 
 Usable(p) == \A w \in UsesOf[p] : wdt[w].alive /\ ~wdt[w].dropped
 
@@ -209,12 +209,11 @@ Refd(lst, ulst, cvs) ==
     \cup {v.w : v \in cvs}
 
 \* dropped widgets die (and release their z-index) once nothing on the screen refers to them
-Reaped(wt, lst, ulst, cvs) ==
-  [w \in Slots |-> IF wt[w].alive /\ wt[w].dropped /\ w \notin Refd(lst, ulst, cvs)
+Reaped(wt, refd) ==
+  [w \in Slots |-> IF wt[w].alive /\ wt[w].dropped /\ w \notin refd
                      THEN [wt[w] EXCEPT !.alive = FALSE, !.dropped = FALSE] ELSE wt[w]]
-Freed(wt, lst, ulst, cvs) ==
-  {wt[w].z : w \in {v \in Slots : wt[v].alive /\ wt[v].dropped /\ v \notin Refd(lst, ulst, cvs)
-                                     /\ StyleOf(v) = "kitty"}}
+Freed(wt, refd) ==
+  {wt[w].z : w \in {v \in Slots : wt[v].alive /\ wt[v].dropped /\ v \notin refd /\ StyleOf(v) = "kitty"}}
 
 ImpliedNow == IF ulast = NoneP THEN {} ELSE ImpliedBy(Ident, WD, PiecesOf[ulast])
 
@@ -267,21 +266,23 @@ Clear ==
   /\ taint' = FALSE
   /\ UNCHANGED <<cv, wdis, started, last, ulast, same, wdt, nxt, free>>
 
+\* (values used more than once are bound through singleton sets: TLC evaluates them once)
 DoRedraw(p, bad, inv) ==
-  LET P == PiecesOf[p]
-      d == LibDiff(Ident, WDg(inv), cv, P, TopLeafOf[p])
-      cdis1 == IF d.delall THEN Bump(cdis) ELSE cdis
-      wdis1 == [w \in Slots |-> IF w \in d.delw THEN Bump(wdis[w]) ELSE wdis[w]]
-      sig == SigOf(p, [c |-> cdis1, w |-> wdis1])
-      toks == <<SyncBegin>> \o DelToks(d) \o (IF bad THEN <<>> ELSE DrawToks(p, sig, scr)) \o <<SyncEnd>>
-      ulast1 == IF bad THEN ulast ELSE p
-      cv1 == ResetGen(d.cviews)
-  IN /\ T' = Fold(T, toks, GFX, 1)
+  \E wd \in {WDg(inv)} :
+  \E d \in {LibDiff(Ident, wd, cv, PiecesOf[p], TopLeafOf[p])} :
+  \E cv1 \in {ResetGen(d.cviews)} :
+  \E cdis1 \in {IF d.delall THEN Bump(cdis) ELSE cdis} :
+  \E wdis1 \in {[w \in Slots |-> IF w \in d.delw THEN Bump(wdis[w]) ELSE wdis[w]]} :
+  \E sig \in {SigOf(wd, p, [c |-> cdis1, w |-> wdis1])} :
+  \E toks \in {<<SyncBegin>> \o DelToks(wd, d) \o (IF bad THEN <<>> ELSE DrawToks(wd, p, sig, scr)) \o <<SyncEnd>>} :
+  \E ulast1 \in {IF bad THEN ulast ELSE p} :
+  \E refd \in {Refd(p, ulast1, cv1)} :
+     /\ T' = Fold(T, toks, GFX, 1)
      /\ cv' = cv1 /\ cdis' = cdis1 /\ wdis' = wdis1
      /\ scr' = IF bad THEN scr ELSE sig
      /\ last' = p /\ ulast' = ulast1 /\ same' = ~bad
-     /\ wdt' = Reaped(wdt, p, ulast1, cv1)
-     /\ free' = free \cup Freed(wdt, p, ulast1, cv1)
+     /\ wdt' = Reaped(wdt, refd)
+     /\ free' = free \cup Freed(wdt, refd)
      /\ taint' = (taint \/ bad)
      /\ ok' = (~bad /\ ~taint)
      /\ out' = [op |-> IF bad THEN "bad" ELSE "redraw", arg |-> [p EXCEPT !.d = p.d + 10 * inv], toks |-> toks,
@@ -301,14 +302,16 @@ RedrawBad == WithBad /\ \E p \in Params : started /\ Usable(p) /\ DoRedraw(p, TR
 \* its cache belongs to that canvas, otherwise draws the rows that differ from its cache
 RedrawSame ==
   /\ started /\ last # NoneP
-  /\ LET quick == scr # <<>> /\ same
-         sig == SigOf(last, Dis)
-         toks == <<SyncBegin>> \o (IF quick THEN <<>> ELSE DrawToks(last, sig, scr)) \o <<SyncEnd>>
-     IN /\ T' = Fold(T, toks, GFX, 1)
+  /\ \E wd \in {WD} :
+     \E quick \in {scr # <<>> /\ same} :
+     \E sig \in {SigOf(wd, last, Dis)} :
+     \E toks \in {<<SyncBegin>> \o (IF quick THEN <<>> ELSE DrawToks(wd, last, sig, scr)) \o <<SyncEnd>>} :
+     \E refd \in {Refd(last, last, cv)} :
+        /\ T' = Fold(T, toks, GFX, 1)
         /\ scr' = IF quick THEN scr ELSE sig
         /\ ulast' = last /\ same' = TRUE
-        /\ wdt' = Reaped(wdt, last, last, cv)
-        /\ free' = free \cup Freed(wdt, last, last, cv)
+        /\ wdt' = Reaped(wdt, refd)
+        /\ free' = free \cup Freed(wdt, refd)
         /\ ok' = IF quick THEN ok ELSE ~taint
         /\ out' = [op |-> "same", arg |-> last, toks |-> toks, res |-> ""]
   /\ UNCHANGED <<cv, cdis, wdis, started, last, nxt, taint>>
@@ -333,9 +336,10 @@ NewWidget ==
 DropWidget ==
   Dyn /\ \E w \in Slots :
     /\ wdt[w].alive /\ ~wdt[w].dropped
-    /\ LET wt == [wdt EXCEPT ![w].dropped = TRUE] IN
-         /\ wdt' = Reaped(wt, last, ulast, cv)
-         /\ free' = free \cup Freed(wt, last, ulast, cv)
+    /\ \E wt \in {[wdt EXCEPT ![w].dropped = TRUE]} :
+       \E refd \in {Refd(last, ulast, cv)} :
+         /\ wdt' = Reaped(wt, refd)
+         /\ free' = free \cup Freed(wt, refd)
     /\ out' = [op |-> "drop", arg |-> Par("w", w, 0, 0, 0), toks |-> <<>>, res |-> ""]
     /\ UNCHANGED <<T, cv, cdis, wdis, scr, started, last, ulast, same, nxt, ok, taint>>
 
